@@ -117,3 +117,15 @@ package lib
 //@ func (*EventsTracker).Reset
 //@   modifies obj(t)
 //@   ensures[cleared] t != nil ==> t.Events == nil && t.Reference == ""
+
+// ---- C05: what a transaction's signer signs, and its identity hash -------------------------------------
+// the object handed to the encoder agrees with the transaction on EVERY field except Signature
+// (field list taken from the Go type), and its Signature is nil
+//@ func (*Transaction).GetSignBytes
+//@   pure
+//@   callsite Marshal requires[covers] samefields(x, dyn(arg0, *Transaction), Signature) && dyn(arg0, *Transaction).Signature == nil
+//@   assumed[names] isnil(result1) ==> bytes(result0) == txSignBytes(x)
+//@ spec func txSignBytes(tx *Transaction) BSeq reads reach
+//@ func (*Transaction).GetHash
+//@   pure
+//@   ensures[whole] result1 == nil ==> bytes(result0) == hashOf(pbBytes(x))
